@@ -9,7 +9,16 @@ package server
 // publish failures (the `__activity` stream made read-only: Publish is refused; a 1 ns publish
 // timeout: the event is appended but Publish reports a failure), controller changes (the
 // leadership callbacks of server.go), restarts on the same data dir, forced Raft snapshots with
-// or without log truncation. Afterwards the harness reads what the implementation did — the
+// or without log truncation. A BACKLOG at the moment the dispatcher is stopped (operations
+// committed between an event and the PUBLISH_ACTIVITY entry that records it) is produced
+// deterministically: `hold` refuses publishes in memory only (the commit log's read-only flag, no
+// Raft entry), operations pile up, `release n` lets exactly n events through — a Raft log
+// listener, called synchronously by the FSM while it applies the n-th PUBLISH_ACTIVITY entry,
+// puts the hold back before the dispatcher can publish the next event — and then the controller
+// is restarted / loses and regains leadership (`restart`, `restart n`, `flip`); `off` / `restart
+// off` run a process lifetime with the activity stream disabled (metadata that exists before the
+// stream is enabled). The same listener samples the resume point of a restarted process: the
+// recorded index once the FSM has replayed the log, before the new dispatcher exists. Afterwards the harness reads what the implementation did — the
 // complete metadata Raft log from the log store and the complete `__activity` stream — and
 //   (1) judges it with an oracle written from the property statement (ids are Raft indices of
 //       the operation they describe, redeliveries identical, first deliveries in commit order,
@@ -18,7 +27,8 @@ package server
 //   (2) rebuilds from the two logs the sequence of model steps (commit / dispatch outcomes /
 //       leader / restart / snapshot) that explains them, feeds it to the compiled Lean model and
 //       compares: every step must be enabled in the model, Raft positions of the recorded
-//       indices, the model's stream, last-published index and crash prediction must equal the
+//       indices, the model's stream, last-published index (when a term ends AND as recomputed by
+//       a restart: the resume point of the new dispatcher) and crash prediction must equal the
 //       implementation's.
 
 import (
@@ -31,6 +41,7 @@ import (
 	"sort"
 	"strconv"
 	"strings"
+	"sync"
 	"testing"
 	"time"
 
@@ -42,10 +53,16 @@ import (
 	proto "github.com/liftbridge-io/liftbridge/server/protocol"
 )
 
-const (
-	c18Port     = 5180
-	c18ChildEnv = "VERIF_C18_CHILD"
-)
+const c18ChildEnv = "VERIF_C18_CHILD"
+
+// c18Port: gRPC port of the server under test (its NATS server: +1000); VERIF_C18_PORT overrides
+// it so that two copies of this harness can run on one machine.
+var c18Port = func() int {
+	if p, err := strconv.Atoi(os.Getenv("VERIF_C18_PORT")); err == nil && p > 0 {
+		return p
+	}
+	return 5180
+}()
 
 type c18Entry struct {
 	idx       uint64
@@ -77,10 +94,61 @@ type c18Snap struct {
 	floor  uint64 // first index of the log store afterwards
 }
 
+// c18Hook is a Raft log listener (public server API; Receive is called synchronously by the FSM
+// after it applied an entry). It (a) samples the recorded index while a restarted process
+// replays its log — the last sample is the resume point of the new dispatcher, which cannot
+// exist before the barrier of leadershipAcquired — and (b) puts the in-memory hold on
+// `__activity` back while the n-th new PUBLISH_ACTIVITY entry is applied: the dispatcher is
+// waiting for that very entry, so the event it tries next is refused.
+type c18Hook struct {
+	mu       sync.Mutex
+	s        *Server
+	bootLast uint64 // last Raft index of the log the process started on
+	resumeLP uint64
+	resumed  bool
+	arm      int // hold again when this many more PUBLISH_ACTIVITY entries were applied
+	heldCh   chan struct{}
+}
+
+func (h *c18Hook) Receive(entry *RaftLog) {
+	if entry.Type != raft.LogCommand {
+		return
+	}
+	h.mu.Lock()
+	defer h.mu.Unlock()
+	if entry.Index <= h.bootLast {
+		h.resumeLP, h.resumed = h.s.activity.LastPublishedRaftIndex(), true
+		return
+	}
+	if h.arm == 0 {
+		return
+	}
+	op := new(proto.RaftLog)
+	if op.Unmarshal(entry.Data) != nil || op.Op != proto.Op_PUBLISH_ACTIVITY {
+		return
+	}
+	if h.arm--; h.arm == 0 {
+		if p := h.s.metadata.GetPartition(activityStream, 0); p != nil {
+			p.log.SetReadonly(true)
+		}
+		close(h.heldCh)
+	}
+}
+
+func (h *c18Hook) armAfter(n int) {
+	h.mu.Lock()
+	h.arm, h.heldCh = n, make(chan struct{})
+	h.mu.Unlock()
+}
+
 type c18Run struct {
 	t       *testing.T
 	dir     string
 	s       *Server
+	hook    *c18Hook
+	off     bool           // the current process runs with the activity stream disabled
+	offPh   map[int]bool   // phases (process lifetimes) with the activity stream disabled
+	resume  map[int]uint64 // phase -> recorded index after the restarted FSM replayed its log
 	script  []string
 	entries map[uint64]*c18Entry
 	maxIdx  uint64
@@ -98,10 +166,10 @@ type c18Run struct {
 	took    time.Duration
 }
 
-func c18Tweak(dir string) func(*Config) {
+func c18Tweak(dir string, enabled bool) func(*Config) {
 	return func(c *Config) {
 		c.DataDir = dir
-		c.ActivityStream.Enabled = true
+		c.ActivityStream.Enabled = enabled
 		c.ActivityStream.PublishTimeout = 2 * time.Second
 		c.ActivityStream.PublishAckPolicy = client.AckPolicy_LEADER
 		c.LogRaft = false
@@ -170,17 +238,35 @@ func (r *c18Run) readStream() []c18Msg {
 	var out []c18Msg
 	newest := p.log.NewestOffset()
 	deadline := time.After(10 * time.Second)
+	take := func(m *client.Message) bool {
+		ev := new(client.ActivityStreamEvent)
+		if err := pb.Unmarshal(m.Value, ev); err != nil {
+			r.errs = append(r.errs, fmt.Sprintf("activity message %d does not decode: %v", m.Offset, err))
+			return false
+		}
+		out = append(out, c18Msg{off: m.Offset, ts: m.Timestamp, ev: ev, raw: append([]byte(nil), m.Value...)})
+		return true
+	}
 	for int64(len(out)) <= newest {
 		select {
 		case m := <-sub.Messages():
-			ev := new(client.ActivityStreamEvent)
-			if err := pb.Unmarshal(m.Value, ev); err != nil {
-				r.errs = append(r.errs, fmt.Sprintf("activity message %d does not decode: %v", m.Offset, err))
+			if !take(m) {
 				return out
 			}
-			out = append(out, c18Msg{off: m.Offset, ts: m.Timestamp, ev: ev, raw: append([]byte(nil), m.Value...)})
 		case e := <-sub.Errors():
-			r.errs = append(r.errs, "activity subscription ended: "+e.Message())
+			// a read-only log (blockact / hold) ends the subscription at its newest offset: the
+			// messages sent before that may still be waiting in the channel
+			for more := true; more && int64(len(out)) <= newest; {
+				select {
+				case m := <-sub.Messages():
+					more = take(m)
+				default:
+					more = false
+				}
+			}
+			if int64(len(out)) <= newest {
+				r.errs = append(r.errs, "activity subscription ended: "+e.Message())
+			}
 			return out
 		case <-deadline:
 			r.errs = append(r.errs, "reading __activity timed out")
@@ -331,10 +417,54 @@ func c18NotStarted(p *partition) bool {
 
 // ---------------------------------------------------------------- running a script
 
+// start: a process lifetime on r.dir — vStartSingleNode, with the listener registered before
+// Server.Start (the dispatcher starts as soon as the node is elected).
 func (r *c18Run) start() {
-	r.s = vStartSingleNode(r.t, "c18", c18Port, c18Tweak(r.dir))
+	config := getTestConfig("c18", true, c18Port)
+	config.CursorsStream.Partitions = 0
+	nf, err := os.CreateTemp("", "verif-nats-*.conf")
+	if err != nil {
+		r.t.Fatal(err)
+	}
+	fmt.Fprintf(nf, "host: 127.0.0.1\nport: %d\n", c18Port+1000)
+	nf.Close()
+	defer os.Remove(nf.Name())
+	config.EmbeddedNATSConfig = nf.Name()
+	config.NATS.Servers = []string{fmt.Sprintf("nats://127.0.0.1:%d", c18Port+1000)}
+	c18Tweak(r.dir, !r.off)(config)
+	s := New(config)
+	arm, heldCh := 0, chan struct{}(nil)
+	if r.hook != nil { // armed by `restart n` for the new process
+		arm, heldCh = r.hook.arm, r.hook.heldCh
+	}
+	r.hook = &c18Hook{s: s, bootLast: r.maxIdx, arm: arm, heldCh: heldCh}
+	s.AddRaftLogListener(r.hook)
+	if err := s.Start(); err != nil {
+		r.errs = append(r.errs, "start server: "+err.Error())
+		return
+	}
+	r.s = s
+	if r.off {
+		r.offPh[len(r.bounds)] = true
+	}
+	deadline := time.Now().Add(20 * time.Second)
+	for time.Now().Before(deadline) && !s.IsLeader() {
+		time.Sleep(10 * time.Millisecond)
+	}
+	if !s.IsLeader() {
+		r.errs = append(r.errs, "server did not become metadata leader within 20 s")
+		return
+	}
+	r.hook.mu.Lock()
+	if r.hook.resumed {
+		r.resume[len(r.bounds)] = r.hook.resumeLP
+	}
+	r.hook.mu.Unlock()
+	if r.off {
+		return
+	}
 	// the activity partition must be led before the first publish can succeed
-	deadline := time.Now().Add(10 * time.Second)
+	deadline = time.Now().Add(10 * time.Second)
 	for time.Now().Before(deadline) {
 		if p := r.s.metadata.GetPartition(activityStream, 0); p != nil {
 			if l, _ := p.GetLeader(); l != "" {
@@ -400,16 +530,50 @@ func (r *c18Run) boltBounds() (first, last uint64) {
 	return
 }
 
+// backlog: stream / group operations committed but beyond the recorded index (what the next
+// dispatcher has to pick up), for the input distribution.
+func (r *c18Run) backlog(lp uint64) {
+	n := 0
+	for i, e := range r.entries {
+		if _, ok := c18Eventful(e); ok && i > lp {
+			n++
+		}
+	}
+	switch {
+	case n == 0:
+		r.stats["boundary-backlog=0"]++
+	case n == 1:
+		r.stats["boundary-backlog=1"]++
+	default:
+		r.stats["boundary-backlog>=2"]++
+	}
+}
+
 // restart: stop; if the log store was truncated, first try the restart in a child process (a
-// panic in the dispatch goroutine kills the process it runs in).
-func (r *c18Run) restart() {
+// panic in the dispatch goroutine kills the process it runs in). arm > 0: the new process holds
+// `__activity` again after its arm-th record; off: the new process has the activity stream disabled.
+func (r *c18Run) restart(arm int, off bool) {
 	r.readRaft()
-	r.lpSeen[len(r.bounds)] = r.s.activity.LastPublishedRaftIndex()
 	r.msgs = r.readStream() // kept in case the restart does not survive
+	old := r.s
 	r.stop()
+	// sampled once the process is down: a dispatcher that was still working when the script
+	// asked for the restart may have recorded more in the meantime
+	lp := old.activity.LastPublishedRaftIndex()
+	r.lpSeen[len(r.bounds)] = lp
 	first, last := r.boltBounds()
+	r.backlog(lp)
 	r.bounds = append(r.bounds, c18Bound{kind: "restart", t: time.Now().UnixNano(), raftLast: last})
 	r.stats["restart"]++
+	r.off = off
+	r.hook = &c18Hook{}
+	if arm > 0 {
+		r.hook.armAfter(arm)
+		r.stats["restart-armed"]++
+	}
+	if off {
+		r.stats["restart-off"]++
+	}
 	if first > 1 {
 		r.stats["restart-truncated"]++
 		cmd := exec.Command(os.Args[0], "-test.run=^TestVerifC18Child$", "-test.timeout=60s", "-test.count=1")
@@ -459,6 +623,36 @@ func (r *c18Run) restart() {
 		r.bounds = append(r.bounds, c18Bound{kind: "child", t: time.Now().UnixNano(), raftLast: last})
 	}
 	r.start()
+}
+
+// setHold refuses / accepts publishes to `__activity` in memory only: the read-only flag of the
+// commit log (what api.Publish looks at), no Raft entry, nothing that survives the process.
+func (r *c18Run) setHold(on bool) {
+	p := r.s.metadata.GetPartition(activityStream, 0)
+	if p == nil {
+		r.errs = append(r.errs, "hold: no activity partition")
+		return
+	}
+	p.log.SetReadonly(on)
+}
+
+// awaitHeld waits until the armed listener has put the hold back.
+func (r *c18Run) awaitHeld() {
+	r.hook.mu.Lock()
+	ch := r.hook.heldCh
+	r.hook.mu.Unlock()
+	if ch == nil {
+		r.errs = append(r.errs, "held: nothing armed")
+		return
+	}
+	select {
+	case <-ch:
+		r.stats["held-after-record"]++
+	case <-time.After(15 * time.Second):
+		// not a reason to stop: the oracle judges what was (not) delivered at the end
+		r.notes = append(r.notes, "held: the dispatcher did not record the expected number of events within 15 s")
+		r.stats["held-timeout"]++
+	}
 }
 
 func (r *c18Run) exec(line string) {
@@ -524,7 +718,9 @@ func (r *c18Run) exec(line string) {
 			time.Sleep(time.Duration(ms) * time.Millisecond)
 		}
 	case "wait":
-		if !r.quiesce(15 * time.Second) {
+		if r.off {
+			r.errs = append(r.errs, "wait: the activity stream is disabled")
+		} else if !r.quiesce(15 * time.Second) {
 			r.notes = append(r.notes, "wait: dispatcher did not catch up within 15 s")
 		}
 	case "flip", "lost", "acquire":
@@ -545,16 +741,60 @@ func (r *c18Run) exec(line string) {
 				break
 			}
 			time.Sleep(30 * time.Millisecond) // the old goroutine leaves its select
-			r.readRaft()
+			// a consistent pair (Raft log, recorded index): the old goroutine polls its stop signal
+			// only between entries and may still be recording
+			for n := 0; n < 50; n++ {
+				lp0 := r.s.activity.LastPublishedRaftIndex()
+				r.readRaft()
+				li, _ := node.store.LastIndex()
+				if lp0 == r.s.activity.LastPublishedRaftIndex() && li == r.maxIdx {
+					break
+				}
+			}
 			r.lpSeen[len(r.bounds)] = r.s.activity.LastPublishedRaftIndex()
+			r.backlog(r.lpSeen[len(r.bounds)])
 			r.bounds = append(r.bounds, c18Bound{kind: "flip", t: time.Now().UnixNano(), raftLast: r.maxIdx})
 			r.stats["flip"]++
 		}
 		if f[0] != "lost" {
 			err = r.s.leadershipAcquired(node)
 		}
-	case "restart":
-		r.restart()
+	case "hold": // publishes to __activity are refused from now on, in memory only
+		r.setHold(true)
+		r.stats["inject-hold"]++
+	case "release": // release <n>: n = 0 for good; n > 0: exactly n events get through, then hold again
+		if need(2) {
+			n, _ := strconv.Atoi(f[1])
+			if n > 0 {
+				r.hook.armAfter(n)
+			}
+			r.setHold(false)
+			if n > 0 {
+				r.awaitHeld()
+			}
+		}
+	case "arm": // arm <n>: hold after n more records (for failures lifted through the API: unblockact)
+		if need(2) {
+			n, _ := strconv.Atoi(f[1])
+			r.hook.armAfter(n)
+		}
+	case "held":
+		r.awaitHeld()
+	case "restart": // restart | restart <n> (hold after the n-th record of the new process) | restart off
+		switch {
+		case len(f) == 1:
+			r.restart(0, false)
+		case len(f) == 2 && f[1] == "off":
+			r.restart(0, true)
+		case len(f) == 2:
+			n, _ := strconv.Atoi(f[1])
+			r.restart(n, false)
+			if len(r.errs) == 0 && !r.crashed && r.s != nil {
+				r.awaitHeld()
+			}
+		default:
+			need(2)
+		}
 	case "snapshot": // snapshot <trailing>: 0 keeps hashicorp/raft's default (10240)
 		if need(2) {
 			tr, _ := strconv.ParseUint(f[1], 10, 64)
@@ -625,7 +865,12 @@ func c18RunScript(t *testing.T, script []string) *c18Run {
 	if err != nil {
 		t.Fatal(err)
 	}
-	r := &c18Run{t: t, dir: dir, script: script, entries: map[uint64]*c18Entry{}, lpSeen: map[int]uint64{}, stats: map[string]int{}}
+	r := &c18Run{t: t, dir: dir, script: script, entries: map[uint64]*c18Entry{}, lpSeen: map[int]uint64{}, stats: map[string]int{},
+		offPh: map[int]bool{}, resume: map[int]uint64{}}
+	if len(script) > 0 && script[0] == "off" { // the first process lifetime has the activity stream disabled
+		r.off, script = true, script[1:]
+		r.stats["restart-off"]++
+	}
 	defer os.RemoveAll(dir)
 	defer r.stop()
 	t0 := time.Now()
@@ -638,7 +883,7 @@ func c18RunScript(t *testing.T, script []string) *c18Run {
 			}
 			r.exec(line)
 		}
-		if r.s != nil && !r.crashed && len(r.errs) == 0 {
+		if r.s != nil && !r.crashed && len(r.errs) == 0 && !r.off {
 			// failures are gone by construction of the scripts: give the dispatcher its time
 			r.s.config.ActivityStream.PublishTimeout = 2 * time.Second
 			if !r.quiesce(20 * time.Second) {
@@ -722,15 +967,28 @@ func (r *c18Run) oracle() []c18Verdict {
 	sort.Slice(evIdx, func(i, j int) bool { return evIdx[i] < evIdx[j] })
 	for _, j := range evIdx {
 		pj, delivered := firstPos[j]
+		if !delivered && r.offPh[r.phaseOf(j)] {
+			// committed while the activity stream was disabled: the statement ("with the activity
+			// stream enabled …") does not demand a delivery; if delivered, order and ids are judged
+			continue
+		}
 		if !delivered {
 			tag := "activity-event-missing"
+			detail := fmt.Sprintf("operation %v at Raft index %d was never delivered (last published index %d, commit index %d)",
+				r.entries[j].op, j, r.finalLP, r.maxIdx)
 			if r.stalled {
 				// classification of the cause only (the violation is the missing delivery): no partition
 				// restored from the snapshot was started, so nothing can be published any more
 				tag = "activity-stalled-after-snapshot-restart"
+			} else if p, lp, ok := r.skippedAt(j); ok {
+				// classification only: the operation was committed and still undelivered (nothing at or
+				// beyond it had been delivered) when a controller term ended, yet the recorded index the
+				// next dispatcher resumes from had already passed it
+				tag = "activity-event-skipped-after-restart"
+				detail += fmt.Sprintf("; when controller term %d ended (%s) nothing at or beyond index %d had been delivered, but the recorded last-published index was %d: the next dispatcher resumed at %d, past the operation",
+					p, r.bounds[p].kind, j, lp, lp+1)
 			}
-			out = append(out, c18Verdict{tag, fmt.Sprintf("operation %v at Raft index %d was never delivered (last published index %d, commit index %d)",
-				r.entries[j].op, j, r.finalLP, r.maxIdx)})
+			out = append(out, c18Verdict{tag, detail})
 			break
 		}
 		for _, y := range firsts {
@@ -741,6 +999,43 @@ func (r *c18Run) oracle() []c18Verdict {
 		}
 	}
 	return out
+}
+
+// phaseOf: the process lifetime / controller term in which Raft index j was appended.
+func (r *c18Run) phaseOf(j uint64) int {
+	for p, b := range r.bounds {
+		if j <= b.raftLast {
+			return p
+		}
+	}
+	return len(r.bounds)
+}
+
+// skippedAt: is there a boundary (restart / controller change) at which operation j was
+// committed, neither it nor anything later had been delivered, and the recorded index — what the
+// next dispatcher starts from — was already at or beyond j? Observations of the implementation
+// only (Raft log store, message timestamps, LastPublishedRaftIndex when the term ended).
+func (r *c18Run) skippedAt(j uint64) (int, uint64, bool) {
+	for p, b := range r.bounds {
+		lp, ok := r.lpSeen[p]
+		if v, seen := r.resume[p+1]; seen && b.kind != "flip" {
+			lp, ok = v, true // a new process: what its FSM recomputed from the log
+		}
+		if !ok || j > b.raftLast || lp < j {
+			continue
+		}
+		passed := false
+		for _, m := range r.msgs {
+			if m.ts <= b.t && m.ev.Id >= j {
+				passed = true
+				break
+			}
+		}
+		if !passed {
+			return p, lp, true
+		}
+	}
+	return 0, 0, false
 }
 
 // ---------------------------------------------------------------- model trace
@@ -818,6 +1113,14 @@ func (r *c18Run) trace(m *vModel) (sent, got []string, problem string) {
 				step("leader - 0")
 			default:
 				step("restart")
+				// the resume point: what the restarted FSM recomputed from its log, sampled before the
+				// new dispatcher existed
+				if lp, ok := r.resume[p]; ok {
+					if c18Field(state, "lp") != fmt.Sprint(lp) || c18Field(state, "disp") != fmt.Sprintf("%d:0", lp+1) {
+						return fail("resume point after the restart that ended term %d: the implementation's FSM recomputed last published index %d (dispatcher starts at %d), the model has lp=%s disp=%s",
+							p-1, lp, lp+1, c18Field(state, "lp"), c18Field(state, "disp"))
+					}
+				}
 			}
 		}
 		// events and records of this phase
@@ -973,16 +1276,56 @@ func c18Fixed() [][]string {
 	}
 }
 
+// c18Backlog: the dispatcher is stopped while operations are committed BETWEEN the newest
+// delivered event and the PUBLISH_ACTIVITY entry that records it (deterministically: hold /
+// release n, see the header), so "recorded index" and "position of the newest record entry"
+// differ when the next dispatcher computes where to resume. No snapshots here: a restart
+// recomputes the recorded index from the complete log.
+func c18Backlog() [][]string {
+	return [][]string{
+		// restart: Raft log … a, rec(a), b, c, join, rec(b) | restart -> resumes with c
+		{"create a", "wait", "hold", "create b", "create c", "join g c1 a", "release 1", "restart", "wait"},
+		// the same across a controller change of a running process
+		{"create a", "wait", "hold", "pause a", "readonly a 1", "delete a", "release 1", "flip", "release 0", "wait"},
+		// the activity stream is enabled on a cluster that already has metadata; the new controller
+		// goes down after its first record; the next one must go on with b
+		{"off", "create a", "create b", "create c", "restart 1", "restart", "wait"},
+		// a restart and then a controller change inside one backlog
+		{"create a", "wait", "hold", "create b", "create c", "create d", "release 1", "restart 1", "flip", "release 0", "wait"},
+		// publishes refused through the API (the stream itself read-only: a committed operation
+		// whose own event is the head of the backlog), lifted, two events recorded, restart
+		{"create a", "wait", "blockact", "create b", "join g c1 a", "arm 2", "unblockact", "held", "restart", "wait"},
+	}
+}
+
+// more of the same for the thorough tier
+func c18BacklogMore() [][]string {
+	return [][]string{
+		// a process lifetime with the activity stream disabled inside the backlog: nothing is
+		// dispatched there, the backlog grows
+		{"create a", "wait", "hold", "create b", "create c", "release 1", "restart off", "create d", "restart 1", "flip", "release 0", "wait"},
+		// three restarts inside one backlog
+		{"create a", "wait", "hold", "create b", "create c", "create d", "create e", "release 1", "restart 1", "restart 1", "restart", "wait"},
+		// every kind of operation in the backlog, two events per term
+		{"create a", "create b", "wait", "hold", "pause a", "publish a", "readonly b 1", "join g c1 a", "join g c2 a", "leave g c1", "delete b", "release 2", "restart 2", "flip", "release 2", "restart", "wait"},
+		// a delivery that was never recorded (publish timeout) before the restart inside the backlog
+		{"create a", "wait", "hold", "create b", "create c", "create d", "release 1", "timeout 0", "release 0", "sleep 300", "restart", "wait"},
+	}
+}
+
 func c18Random(rnd *vRand, n int) []string {
 	var s []string
 	streams := []string{}
 	paused := map[string]bool{}
 	ro := map[string]bool{}
 	members := map[string]bool{}
-	blocked, tmo := false, false
+	blocked, tmo, held := false, false, false
+	pend := 0 // stream operations scripted since the hold
 	seq := 0
 	for len(s) < n {
-		switch k := rnd.Intn(16); {
+		k := rnd.Intn(19)
+		before := len(s)
+		switch {
 		case k < 3 || len(streams) == 0:
 			seq++
 			nm := fmt.Sprintf("s%d", seq)
@@ -1016,7 +1359,7 @@ func c18Random(rnd *vRand, n int) []string {
 			delete(paused, streams[i])
 			delete(ro, streams[i])
 			streams = append(streams[:i], streams[i+1:]...)
-		case k == 10:
+		case k == 10 && !held: // (the committed flag and the hold are the same bit of the commit log)
 			if blocked {
 				s = append(s, "unblockact")
 			} else {
@@ -1035,13 +1378,44 @@ func c18Random(rnd *vRand, n int) []string {
 			if tmo { // the configuration is per process
 				tmo = false
 			}
+			held, pend = false, 0 // so is the hold
 		case k == 13:
 			s = append(s, "sleep 250", "flip")
 		case k == 14:
 			s = append(s, "sleep "+fmt.Sprint(100+rnd.Intn(900)))
-		case k == 15 && !blocked && !tmo:
+		case k == 15 && !blocked && !tmo && !held:
 			s = append(s, "wait")
+		case k >= 16 && !held && !blocked && !tmo:
+			s = append(s, "wait", "hold")
+			held, pend = true, 0
+		case k >= 16 && held && !blocked && !tmo && pend >= 2:
+			// let one or two events through, then stop the dispatcher inside the backlog
+			m := 1 + rnd.Intn(2)
+			if m >= pend {
+				m = 1
+			}
+			s = append(s, fmt.Sprintf("release %d", m))
+			switch rnd.Intn(3) {
+			case 0:
+				s = append(s, "restart")
+				held = false
+			case 1:
+				s = append(s, fmt.Sprintf("restart %d", 1))
+				if pend-m < 2 {
+					s[len(s)-1] = "restart"
+					held = false
+				}
+			default:
+				s = append(s, "flip")
+			}
+			pend = 0
 		}
+		if held && k < 10 {
+			pend += len(s) - before // every line scripted there is one stream / group operation
+		}
+	}
+	if held {
+		s = append(s, "release 0")
 	}
 	if blocked {
 		s = append(s, "unblockact")
@@ -1102,7 +1476,7 @@ func c18Judge(t *testing.T, res *vResult, model *vModel, name string, script []s
 	for _, b := range c18Bucket(r) {
 		res.Dist(b)
 	}
-	nontrivial := r.stats["inject-readonly"]+r.stats["inject-timeout"]+r.stats["restart"]+r.stats["flip"]+r.stats["snapshot"] > 0
+	nontrivial := r.stats["inject-readonly"]+r.stats["inject-timeout"]+r.stats["inject-hold"]+r.stats["restart"]+r.stats["flip"]+r.stats["snapshot"] > 0
 	var ids []string
 	for _, m := range r.msgs {
 		ids = append(ids, fmt.Sprint(m.ev.Id))
@@ -1131,7 +1505,8 @@ func TestVerifC18(t *testing.T) {
 		t.Skip("child mode")
 	}
 	res := vNewResult("C18", "a case = one script (metadata operations, injected publish failures, controller changes, restarts, snapshots) on a real single-node server; "+
-		"counted once per distinct (script, observed stream); non-trivial = at least one injected failure / restart / controller change / snapshot")
+		"counted once per distinct (script, observed stream); non-trivial = at least one injected failure / restart / controller change / snapshot; "+
+		"boundary-backlog=… : stream / group operations beyond the recorded index at each restart / controller change")
 	defer res.Write(t)
 	model := vStartModel(t)
 	defer model.Close()
@@ -1148,6 +1523,14 @@ func TestVerifC18(t *testing.T) {
 	}
 	for i, c := range c18Fixed() {
 		c18Judge(t, res, model, fmt.Sprintf("fixed-%d", i), c)
+	}
+	for i, c := range c18Backlog() {
+		c18Judge(t, res, model, fmt.Sprintf("backlog-%d", i), c)
+	}
+	if vThorough() {
+		for i, c := range c18BacklogMore() {
+			c18Judge(t, res, model, fmt.Sprintf("backlog-more-%d", i), c)
+		}
 	}
 	rnd := vNewRand(0xC18)
 	n, length := 4, 12
@@ -1171,7 +1554,7 @@ func TestVerifC18Child(t *testing.T) {
 	if dir == "" {
 		t.Skip("only run as a child of TestVerifC18")
 	}
-	s := vStartSingleNode(t, "c18", c18Port, c18Tweak(dir))
+	s := vStartSingleNode(t, "c18", c18Port, c18Tweak(dir, true))
 	time.Sleep(1500 * time.Millisecond)
 	fmt.Printf("C18CHILD alive lp=%d\n", s.activity.LastPublishedRaftIndex())
 	s.Stop()
